@@ -7,6 +7,7 @@ import (
 	"os"
 	"sort"
 	"strings"
+	"sync"
 
 	"golang.org/x/tools/go/ssa"
 )
@@ -234,7 +235,36 @@ type Engine struct {
 }
 
 // NewEngine returns an engine for p.
+var (
+	engMu   sync.Mutex
+	engines = map[*ssa.Program]*Engine{}
+)
+
+// ResolvedPhi: the operand a phi is known to equal at all of its uses (nil: not known), looked up through the engine
+// of the phi's program (the facts of its function are computed on demand).
+func ResolvedPhi(p *ssa.Phi) ssa.Value {
+	if p == nil || p.Parent() == nil {
+		return nil
+	}
+	engMu.Lock()
+	e := engines[p.Parent().Prog]
+	engMu.Unlock()
+	if e == nil {
+		return nil
+	}
+	ff := e.Facts(p.Parent(), Ctx{})
+	return ff.resolved[p]
+}
+
 func NewEngine(p *Prog) *Engine {
+	e := newEngine(p)
+	engMu.Lock()
+	engines[p.SSA] = e
+	engMu.Unlock()
+	return e
+}
+
+func newEngine(p *Prog) *Engine {
 	return &Engine{P: p, facts: map[string]*FnFacts{}, sums: map[string]*Summary{}, busy: map[string]bool{}, Analysed: map[*ssa.Function]bool{}}
 }
 
@@ -484,6 +514,37 @@ func (ff *FnFacts) outToward(p, s *ssa.BasicBlock, pin FactSet) FactSet {
 		out.add(f)
 	}
 	return out
+}
+
+// WalkFeasible explores the blocks reachable from the last block of prefix along live edges that skip does not veto
+// and that the way of arrival allows (see PathFeasible); it returns true as soon as hit accepts a block.
+func (ff *FnFacts) WalkFeasible(prefix []*ssa.BasicBlock, skip func(a, b *ssa.BasicBlock) bool, hit func(b *ssa.BasicBlock) bool) bool {
+	seen := map[[3]*ssa.BasicBlock]bool{}
+	var dfs func(path []*ssa.BasicBlock) bool
+	dfs = func(path []*ssa.BasicBlock) bool {
+		x := path[len(path)-1]
+		for _, s := range x.Succs {
+			if !ff.IsLiveEdge(x, s) || (skip != nil && skip(x, s)) || !ff.PathFeasible(path, s) {
+				continue
+			}
+			if hit(s) {
+				return true
+			}
+			k := [3]*ssa.BasicBlock{s, x, nil}
+			if len(path) >= 2 {
+				k[2] = path[len(path)-2]
+			}
+			if seen[k] {
+				continue
+			}
+			seen[k] = true
+			if dfs(append(path[:len(path):len(path)], s)) {
+				return true
+			}
+		}
+		return false
+	}
+	return dfs(prefix)
 }
 
 func predIndex(b, pred *ssa.BasicBlock) int {
